@@ -12,9 +12,9 @@ CFG = dict(
     trusted_base=COMMON_TB + [
         "modelled, not verified: bitcode payload (de)serialisation (premise deser (ser e) = Some e; the harness supplies the real payload bytes and the real replay decodes them), crc32fast (concrete Gallina CRC-32 compared byte-for-byte with every real log file), the file system below 'a file is a byte string; a crash keeps a prefix of unsynced appends; set_len/rename/File::create are atomic'; HashMap iteration order never observed (observations are per key id)",
     ],
-    assumptions=["cache-class keys are outside the property (documented non-durable) and are not observed", "theorems cover put_durable/delete_durable sequences where only embedding-class keys carry an `_embedding` (class plain); the observation equality inside the three records of a delete of an indexed embedding key, checkpoint step boundaries, non-embedding keys with `_embedding`, Batched/Manual sync and rotation are covered by the correspondence check + oracle only", "the embedding slab dimension is the default 384 (the only one reachable through TensorStore::open_durable / recover)"],
+    assumptions=["cache-class keys are outside the property (documented non-durable) and are not observed", "theorems cover, for every crash byte and any number of crashes, put_durable/delete_durable sequences where only embedding-class keys carry an `_embedding` (class plain) under immediate-sync semantics; checkpoint step boundaries, non-embedding keys with `_embedding`, Batched/Manual sync and rotation are covered by the correspondence check + oracle only", "the embedding slab dimension is the default 384 (the only one reachable through TensorStore::open_durable / recover)"],
 )
 MANIFEST = dict(
-    text="WAL record framing, replay and crash-prefix recovery for EVERY byte offset, tail repair on open and the multi-generation statement are Coq theorems (Common/WalFormat.v, all inputs); on top, the durable store model (entity index, embedding slab, metadata, put/delete_durable logging, from_entries, recover, checkpoint) with theorems that recovery never fails and returns the state of an acknowledged-covering prefix; the model is compared with the real TensorStore at every truncation offset of the real log over up to three crash generations and the property oracle is evaluated on the implementation's own observations.",
+    text="WAL record framing, replay and crash-prefix recovery for EVERY byte offset, tail repair on open and the multi-generation statement are Coq theorems (Common/WalFormat.v, all inputs); on top, the durable store model (entity index, embedding slab, metadata, put/delete_durable logging, from_entries, recover, checkpoint) with theorems, for all call sequences of the proved class, every crash byte and any number of crashes: recovery never fails, the records a call logs replay to exactly its live effect, and the recovered store shows for every key what the live store showed after p calls with p >= the number of acknowledged calls; the model is compared with the real TensorStore at every truncation offset of the real log over up to three crash generations (SyncMode Immediate/Batched/Manual), at every step boundary and marker byte inside checkpoint(), and the property oracle is evaluated on the implementation's own observations.",
     note="Trusted: Coq kernel, translator gen_C02.py (source facts -> model configuration), harness + driver. Modelled not verified: bitcode, crc32fast (compared byte-for-byte), file system atomicity assumptions, snapshot file format (C07).",
 )
